@@ -6,7 +6,10 @@ The Go lexer walks a UTF-8 string rune by rune (`utf8.DecodeRuneInString`), may 
 rune (`backup`), and sends items `{typ, val, line}` over a channel; here the input is first cut
 into runes-with-their-bytes (`RB`), and the state functions of the Go code become the states of a
 one-pass machine: a token that ends because the next rune does not belong to it is emitted and the
-same rune is then handled as `lexStart` would (`backup` + `return lexStart`).
+same rune is then handled as `lexStart` would (`backup` + `return lexStart`).  A NUL byte
+(which `next` cannot tell from the end of the input by the rune alone) is an unexpected
+character for `lexStart`, ends an identifier or a comment like any other foreign rune, and
+makes a string unterminated.
 -/
 import SfntV.Generated.Dsl
 
@@ -115,8 +118,7 @@ def singleChar (r : Nat) : Option Nat := (Gen.dslSingleCharTokens.find? (·.1 ==
 /-- `lexStart` looking at rune `c` after the skipped white space `ws` -/
 def startStep (ws : List RB) (line : Nat) (c : RB) : List Tok × Option (LState × Nat) :=
   let r := c.1
-  if r == 0 then ([{ typ := tEOF, val := ws ++ [c], line := line }], none)
-  else if r != 10 && isSpace r then ([], some (.start (ws ++ [c]), line))
+  if r != 10 && isSpace r then ([], some (.start (ws ++ [c]), line))
   else if r == 10 then ([{ typ := tEOL, val := [c], line := line }], some (.start [], line + 1))
   else if isLetter r || r == 46 || r == 95 then ([], some (.ident [c], line))
   else if r == 34 then ([], some (.str [c] false, line))
@@ -136,9 +138,6 @@ def step (st : LState) (line : Nat) (c : RB) : List Tok × Option (LState × Nat
   | .start ws => startStep ws line c
   | .ident acc =>
     if isLetter r || r == 46 || r == 95 || isDigit r then ([], some (.ident (acc ++ [c]), line))
-    else if r == 0 then
-      -- `if r != eof { l.backup() }`: a NUL is not un-read; it stays in the identifier's val
-      ([{ typ := tIdentifier, val := acc ++ [c], line := line }], some (.start [], line))
     else
       let (ts, n) := startStep [] line c
       ({ typ := tIdentifier, val := acc, line := line } :: ts, n)
